@@ -216,7 +216,7 @@ fn check(id: &str, tier: Tier) -> i32 {
     if engine::explore_budget_exhausted() && !rep.caps_hit.is_empty() {
         let n = rep.caps_hit.len();
         rep.caps_hit.truncate(5);
-        rep.caps_hit.insert(0, format!("wall budget of the graph explorations used up: {} graphs cut short (state identity includes the object's full internal state; bookkeeping that differs per call sequence keeps graphs from closing)", n));
+        rep.caps_hit.insert(0, format!("wall budget (or memory cap) of the graph explorations used up: {} graphs cut short (state identity includes the object's full internal state; bookkeeping that differs per call sequence keeps graphs from closing)", n));
     }
     let exhaustive = rep.caps_hit.is_empty();
     let mut coverage = serde_json::Map::new();
